@@ -12,12 +12,14 @@ for f in sorted(glob.glob("/verif/seeded/*/meta.json")):
     note = " ".join(m["what_it_needs_to_manifest"].split())
     note = note.replace("|", "/")[:230]
     det = "**caught** (quick)" if m["detected_by_quick_check"] else ("MISSED" if m["check_exit_code"] == 0 else "exit %s" % m["check_exit_code"])
+    if not m["detected_by_quick_check"] and m.get("detected_by_quick_check_of"):
+        det = "outside this property; **caught by %s** (quick)" % m["detected_by_quick_check_of"]
     cl = m.get("first_violation_line", "")
     cl = cl.split("clauses=")[-1][:70] if cl else ""
     rows.append("| %s | %s | %s | %s | %s |" % (name, "yes" if m["confirmed"] else "NO", det, cl.replace("|", "/"), note))
 tab = ("| seeded change | confirmed (tests pass, demo fails with / passes without) | quick check of its property | first failed clauses | what it is / needs |\n"
        "|---|---|---|---|---|\n" + "\n".join(rows))
-caught = sum("caught" in r for r in rows)
+caught = sum("**caught** (quick)" in r for r in rows)
 summary = ("%d seeded changes kept (each confirmed in a scratch worktree of /repo HEAD: patch applies, the baseline tests still pass, the "
            "sub-agent's demonstration fails with the change and passes without it); %d are caught by the quick check of their property.\n\n" % (len(rows), caught))
 if len(sys.argv) > 1 and sys.argv[1] == "--splice":
